@@ -46,7 +46,8 @@ pub const NPARTY: usize = 4;
 pub static PARTIES: [Party; NPARTY] = [Party::new(), Party::new(), Party::new(), Party::new()];
 pub static ACTIVE: AtomicBool = AtomicBool::new(false);
 /// bit i set: point id i is log-only (never blocks)
-pub static PASS_MASK: AtomicU64 = AtomicU64::new((1 << 5) | (1 << 30) | (1 << 42));
+pub const DEFAULT_PASS: u64 = (1 << 5) | (1 << 30) | (1 << 42) | (1 << 45);
+pub static PASS_MASK: AtomicU64 = AtomicU64::new(DEFAULT_PASS);
 /// address of the exit futex the handle owner is (about to be) waiting on, and who
 pub static WAIT_ADDR: AtomicUsize = AtomicUsize::new(0);
 pub static WAIT_TID: AtomicU32 = AtomicU32::new(0);
